@@ -27,6 +27,10 @@ CHECKS = {
             "bounded-exhaustive execution of SLUFactorRational over all small matrices of a rational alphabet x every solve variant, and of SoPlex's rational basis-inverse queries on solver bases before/after cache-invalidating calls; mpq equality against exact elimination; whole run under AddressSanitizer",
             "Part A: every 2x2 matrix over {0,1,-1/3,2^40+1,2^-40,1+2^-60} and every (quick: every third) 3x3 matrix over {0,1,-1/3,2^40+1} (thorough: also the 6-letter 3x3 matrices with <=5 nonzeros and 4x4 over {0,1,-1/3} with <=7 nonzeros) is loaded into SLUFactorRational; 'singular' must be reported exactly when the exact determinant is 0, and all nine solve variants (dense and sparse, right and left, the 2- and 3-right-hand-side forms) must return exactly the solution computed by the harness's own rational elimination on unit and dense right-hand sides. Part B: for every stride-th canonical tiny LP, after an exact solve and again after each of nine cache-invalidating modifications (and after the re-solve), getBasisIndRational / getBasisInverseRow/Col/TimesVecRational must equal the exact inverse of the basis matrix assembled from the harness's copy of the LP. The harness runs under ASan; every report is a verdict attributed to the solve variant.",
             "Trusted: GMP mpq arithmetic and the harness's Gaussian elimination. Two genuine defects of the sparse rational solves are recorded in known_findings.json."),
+    "C08": ("exploration", "DESIGN.md section 3 C08",
+            "bounded-exhaustive direct drive of SPxMainSM<double> (simplify + unsimplify) over tiny-LP families x keepbounds x seeds x EVERY optimal basic solution of the reduced LP (exact enumeration), exact certificate check against the original LP",
+            "The internal simplifier is driven without the solver around it (so the driver's silent re-solve cannot hide a wrong postsolve): for every canonical LP of the families, keepbounds on/off and presolve seed, the verdict (INFEASIBLE / UNBOUNDED / DUAL_INFEASIBLE / VANISHED / reduced LP + offset) is compared with the exact classification of the original LP; every optimal basic solution of the reduced LP - all of them, from exact basis enumeration, including degenerate ones - is pushed through a fresh simplify + unsimplify and the postsolved primal/slack/dual/reduced-cost vectors are judged by the exact certificate check against the original LP, the postsolved basis by the validity conditions (one basic variable per row, admissible nonbasic statuses, nonsingular basis matrix). The evidence lists how often each of the 17 reduction kinds fired.",
+            "Trusted: exact oracle. Three groups of genuine postsolve defects are recorded in known_findings.json (aggregation steps, doubleton + vanished duals, statuses of degenerate vertices); violations outside those signature groups still fail the check."),
 }
 
 NOT_YET = {}
